@@ -637,3 +637,84 @@ func H17Twice() {
 	vndAssert(len(t2[0].Rows[0].Metrics[0].RValues) == n1, "retained-values-counted-once")
 	vndAssert(n1 <= 7, "retained-values-counted-once")
 }
+
+// H17Geomean: the geomean row is the geometric mean of the non-zero means of *every*
+// benchmark of the configuration, also of those that have no row of their own because
+// the other configuration lacks them. Three benchmarks, each present in the old, the new or
+// both configurations (symbolic); one mean is zero and is left out.
+func H17Geomean() {
+	h17Vals, h17Next = nil, 0
+	names := []string{"A", "B", "C"}
+	vals := [2][]float64{{100, 400, 1600}, {200, 0, 3200}}
+	var present [2][3]bool
+	var rs [2][]*benchfmt.Result
+	for k := 0; k < 2; k++ { // results are parsed configuration by configuration
+		for i := range names {
+			present[k][i] = vndBool("present")
+			if present[k][i] {
+				rs[k] = append(rs[k], h17Result(names[i], vals[k][i], "ns/op"))
+			}
+		}
+	}
+	c := &Collection{AddGeoMean: true}
+	nconf := 0
+	var prod [2]float64
+	var cnt [2]int
+	for k, cfg := range []string{"old", "new"} {
+		if len(rs[k]) == 0 {
+			continue
+		}
+		c.AddResults(cfg, rs[k])
+		prod[nconf], cnt[nconf] = 1, 0
+		for i := range names {
+			if present[k][i] && vals[k][i] != 0 {
+				prod[nconf] *= vals[k][i]
+				cnt[nconf]++
+			}
+		}
+		nconf++
+	}
+	tables := c.Tables()
+	vndReach("h17:geomean")
+	shown := false // a benchmark has a row when no configuration lacks it
+	for i := range names {
+		shown = shown || (present[0][i] && present[1][i]) || (nconf == 1 && (present[0][i] || present[1][i]))
+	}
+	vndAssert((len(tables) > 0) == shown, "table-exactly-when-some-benchmark-has-a-row")
+	if len(tables) == 0 {
+		return
+	}
+	vndAssert(len(tables) == 1, "one-unit-one-table")
+	var geo *Row
+	for _, r := range tables[0].Rows {
+		if r.Benchmark == "[Geo mean]" {
+			vndAssert(geo == nil, "one-geomean-row")
+			geo = r
+		}
+	}
+	maxCount := cnt[0]
+	if nconf == 2 && cnt[1] > maxCount {
+		maxCount = cnt[1]
+	}
+	vndAssert((geo != nil) == (maxCount > 1), "geomean-row-exactly-when-more-than-one-benchmark-contributes")
+	if geo == nil {
+		return
+	}
+	vndReach("h17:geomean-row")
+	vndAssert(len(geo.Metrics) == nconf, "geomean-per-configuration")
+	close := func(got, want float64) bool { return math.Abs(got-want) <= 1e-9*math.Abs(want) }
+	var g [2]float64
+	for k := 0; k < nconf && k < len(geo.Metrics); k++ {
+		if cnt[k] == 0 {
+			vndAssert(geo.Metrics[k].Mean == 0, "no-contribution-no-geomean")
+			continue
+		}
+		g[k] = math.Pow(prod[k], 1/float64(cnt[k]))
+		vndAssert(close(geo.Metrics[k].Mean, g[k]), "geomean-is-the-geometric-mean-of-the-non-zero-means")
+	}
+	if nconf == 2 && cnt[0] > 0 && cnt[1] > 0 {
+		vndAssert(close(geo.PctDelta, (g[1]/g[0]-1)*100) || (g[1] == g[0] && math.Abs(geo.PctDelta) < 1e-9), "geomean-delta-is-the-ratio-of-the-geomeans")
+	} else {
+		vndAssert(geo.Delta == "", "no-geomean-delta-without-two-geomeans")
+	}
+}
